@@ -93,6 +93,8 @@ int libxmp_realloc_samples(struct module_data *m, int new_size)
 	if (xxs == NULL)
 		return -1;
 	mod->xxs = xxs;
+	if (new_size < mod->smp)
+		mod->smp = new_size;	/* xxs has shrunk: never walk past it, even if the next step fails */
 
 	xtra = (struct extra_sample_data *) realloc(m->xtra, sizeof(struct extra_sample_data) * new_size);
 	if (xtra == NULL)
